@@ -533,6 +533,27 @@ func TestVerifC20(t *testing.T) {
 		}
 	}
 
+	// ---- Serve with many tasks (one per interface of a large router): nothing in the property depends on how
+	// many there are -- all are started, all are cancelled together, readiness waits for every one
+	for _, n := range []int{64, 70, 130} {
+		for _, sg := range []string{"TERM", "HUP"} {
+			var scripts []c20Script
+			for j := 0; j < n; j++ {
+				scripts = append(scripts, c20MkScript("until-cancelled", int64(1+j%7)*c20ms, 0, 0))
+			}
+			sigs := []c20Sig{{At: 200 * c20ms, Sig: sg}}
+			c20EmitServe(t, out, fmt.Sprintf("c20-many-%d-%s", n, sg), scripts, sigs, "", []string{"stream:serve-many", "sig:" + sg, fmt.Sprintf("tasks:%d", n)})
+		}
+		// the last of them fails
+		var scripts []c20Script
+		for j := 0; j < n-1; j++ {
+			scripts = append(scripts, c20MkScript("until-cancelled", int64(1+j%7)*c20ms, 0, 0))
+		}
+		scripts = append(scripts, c20MkScript("fails", 5*c20ms, 90*c20ms, 11))
+		c20EmitServe(t, out, fmt.Sprintf("c20-many-%d-fails", n), scripts, []c20Sig{{At: 3600 * 1000 * c20ms / 2, Sig: "TERM"}}, "",
+			[]string{"stream:serve-many", fmt.Sprintf("tasks:%d", n)})
+	}
+
 	// ---- Serve: random task sets and signal schedules
 	r := verifh.NewRand(verifh.Seed(), "C20-serve")
 	n := 500
